@@ -23,7 +23,7 @@ func (c02) Rule() string {
 	return "each run: seeded tree e (regular strings) and a reference pool (13 sentinels, every visible node of e, independent / perturbed / cloned generated trees); " +
 		"cluster of knowing and unknowing processes; e travels a route mixing both kinds, up to 3 generated references travel their own routes; " +
 		"oracles: (a) Is(e_i, r) for local r at every knowing process (and, at unknowing ones, for stdlib sentinels), (b) Is(e_i, r_j) where both met at a process, " +
-		"(c) Is(e_0, r_j) back at the origin, IsAny == disjunction; distinct = (shape of e x profile sequence x number of transferred refs); " +
+		"(c) Is(e_0, r_j) back at the origin, IsAny == disjunction; with an errno leaf, 1/4 of the runs rewrite it as sent by a peer of another architecture and compare the stdlib sentinels only; distinct = (shape of e x profile sequence x number of transferred refs); " +
 		"non-trivial = e has >= 2 layers, the route has >= 1 hop and the origin row contains at least one match"
 }
 
